@@ -124,6 +124,27 @@ extern "C" void harness(void) {
             SepPair c = base; c.transform(SepTransform::ROTATE90CW);
             CHECK(same_pair(q, c), "C18 main-diagonal flip then vertical-axis flip equals the clockwise quarter turn");
         }
+#elif PART == 3
+        {
+            // history: a pair that already exists (created under either order) is overwritten through either order;
+            // the result must equal a fresh matrix that only saw the last call
+            for (int firstFlipped = 0; firstFlipped < 2; firstFlipped++) for (int secondFlipped = 0; secondFlipped < 2; secondFlipped++) {
+                SepMatrix m(nullptr), fresh(nullptr);
+                if (firstFlipped) m.addSep(2, 1, GapType::CENTRE, SepDir::SOUTH, SepType::INEQ, 3.0);
+                else m.addSep(1, 2, GapType::CENTRE, SepDir::SOUTH, SepType::INEQ, 3.0);
+                if (secondFlipped) { m.addSep(2, 1, gt, negateSepDir(sd), st, gap); fresh.addSep(2, 1, gt, negateSepDir(sd), st, gap); }
+                else { m.addSep(1, 2, gt, sd, st, gap); fresh.addSep(1, 2, gt, sd, st, gap); }
+                // the first call constrained y (SOUTH); cardinal second calls overwrite both dimensions, lateral ones only their own:
+                // compare the dimension(s) the second call writes
+                SepPair_SP p = stored_pair(m, 1, 2), q = stored_pair(fresh, 1, 2);
+                bool writesX = (sd == SepDir::EAST) | (sd == SepDir::WEST) | (sd == SepDir::RIGHT) | (sd == SepDir::LEFT) | (sd == SepDir::SOUTH) | (sd == SepDir::NORTH);
+                bool writesY = (sd == SepDir::SOUTH) | (sd == SepDir::NORTH) | (sd == SepDir::DOWN) | (sd == SepDir::UP) | (sd == SepDir::EAST) | (sd == SepDir::WEST);
+                bool same = true;
+                if (writesX) same = same & (p->xgt == q->xgt) & (p->xst == q->xst) & same_double(p->xgap, q->xgap);
+                if (writesY) same = same & (p->ygt == q->ygt) & (p->yst == q->yst) & same_double(p->ygap, q->ygap);
+                CHECK(same, "C18 re-storing an existing pair through (a,b) or (b,a) gives what a fresh store gives");
+            }
+        }
 #else
         {
             // storing under (a,b) equals storing the negated direction under (b,a)
